@@ -324,6 +324,43 @@ def dist_unit(ctx, u):
             ctx.notes.append(f"dist sample {name}: {type(e).__name__}")
 
 
+def transformed_ctor_unit(ctx, u):
+    """Transformed(base, bijection): constructing with a conditional base AND a conditional bijection whose cond_shapes differ must raise;
+    equal cond_shapes (or one side unconditional) must construct and declare that cond_shape.  Oracle only (seeded change C13c)."""
+    f = c08.fj()
+    fb, jnp, M = f["fb"], f["jnp"], f["M"]
+    import flowjax.distributions as fd
+
+    def cond_base(cs, s=(2,)):  # a library-made conditional distribution: StandardNormal pushed through an AdditiveCondition
+        return fd.Transformed(fd.StandardNormal(s), fb.AdditiveCondition(M["WSum"](jnp.ones(cs)), s, cs))
+
+    def cond_bij(cs, s=(2,)):
+        return fb.AdditiveCondition(M["WSum"](jnp.ones(cs)), s, cs)
+
+    shapes = [None, (), (1,), (2,), (3,), (2, 3)]
+    for cb in shapes:
+        for cj in shapes:
+            base = fd.StandardNormal((2,)) if cb is None else cond_base(cb)
+            bij = fb.Affine(jnp.ones(2), jnp.full(2, 2.0)) if cj is None else cond_bij(cj)
+            ok_expected = cb is None or cj is None or cb == cj
+            u.count(f"transformed-ctor|{cb}|{cj}", nontrivial=not ok_expected, tag="transformed-ctor")
+            try:
+                d = fd.Transformed(base, bij)
+                res = ("ok", d.cond_shape)
+            except Exception as e:  # noqa: BLE001
+                res = ("err", f"{type(e).__name__}: {str(e)[:80]}")
+            bad = None
+            if not ok_expected and res[0] == "ok":
+                bad = f"Transformed(base with cond_shape {cb}, bijection with cond_shape {cj}) was constructed (declares cond_shape {res[1]}) although the condition shapes differ"
+            elif ok_expected and res[0] == "err":
+                bad = f"Transformed(base with cond_shape {cb}, bijection with cond_shape {cj}) raised {res[1]}"
+            elif ok_expected and res[1] != (cb if cb is not None else cj):
+                bad = f"Transformed(base cond_shape {cb}, bijection cond_shape {cj}) declares cond_shape {res[1]}"
+            if bad:
+                ctx.violation(sig=f"dist:Transformed-ctor:{'accepted' if not ok_expected else 'rejected'}", what=bad, case=dict(unit="transformed-ctor", base_cond=str(cb), bij_cond=str(cj)),
+                              found_input=True, unit=u.name, expected="raise" if not ok_expected else "construct", observed=str(res), broken="dist-unit (oracle): Transformed constructor")
+
+
 def run(ctx):
     import warnings
 
@@ -389,6 +426,7 @@ def run(ctx):
     for i in range(80 if ctx.quick else 3000):
         c08.check_tree(ctx, uk, G.bad_ctor(), rng, "ctor", with_oracle=True)
     dist_unit(ctx, ud)
+    transformed_ctor_unit(ctx, ud)
     ctx.assumptions += [
         "all axis sizes >= 1 (zero-sized axes are outside the model)",
         "classes without a model leaf (Exp, Tanh, splines, Planar, Coupling, MAF, BNAF, ...) are serialised as opaque identity leaves: "
